@@ -32,7 +32,8 @@ func init() {
 type c08Scenario struct {
 	Kind    string     `json:"kind"` // queue-ll, stack-ll, queue-slice, stack-slice
 	Threads [][]string `json:"threads"`
-	Warm    int        `json:"warm_up_backlog,omitempty"`          // > 0: two sequential backlogs of this size go through the wrapper first
+	Warm    int        `json:"warm_up_backlog,omitempty"` // > 0: two sequential backlogs of this size go through the wrapper first
+	Nested  bool       `json:"wrapper_of_a_wrapper_both_handles_used,omitempty"`
 	Trim    []int      `json:"node_pool_trimmed_before,omitempty"` // [m, n]: m values go through the wrapper, then the owner trims the wrapped list's node pool to n
 
 	h          *Hist
@@ -55,6 +56,8 @@ func genC08(t *simrt.Tape, tier string) Scenario {
 		// with its own list) before the concurrent phase
 		sc.Trim = []int{4 + t.Choose(10), 1 + t.Choose(3)}
 	}
+	// a ConcurrentQueue/Stack is itself a Queue/Stack: it may be wrapped again, and both handles may be used
+	sc.Nested = t.Bool(1, 5)
 	maxT, maxOps := 4, 4
 	if tier == "thorough" {
 		if t.Bool(1, 3) {
@@ -171,7 +174,30 @@ func (sc *c08Scenario) Run(s *simrt.Sim) {
 	} else {
 		cs = fpgo.NewConcurrentStack[int](stack)
 	}
+	innerQ, innerS := cq, cs
+	if sc.Nested {
+		if cq != nil {
+			cq = fpgo.NewConcurrentQueue[int](innerQ)
+		} else {
+			cs = fpgo.NewConcurrentStack[int](innerS)
+		}
+		sc.probes["wrapper-of-a-wrapper"]++
+	}
+	outerQ, outerS := cq, cs
+	useInner := func(inner bool) {
+		if inner {
+			cq, cs = innerQ, innerS
+		} else {
+			cq, cs = outerQ, outerS
+		}
+	}
 	do := func(name, opk string, v int) *Op {
+		if sc.Nested {
+			// odd-numbered threads talk to the inner wrapper, the others (and the final drain) to the outer one
+			n := 0
+			fmt.Sscanf(name, "t%d", &n)
+			useInner(strings.HasPrefix(name, "t") && n%2 == 1)
+		}
 		switch opk {
 		case "Offer":
 			return h.Do(name, "Offer", v, func() (interface{}, error) { return nil, cq.Offer(v) })
